@@ -339,6 +339,11 @@ class IncomingMessageHandler(IncomingMessageHandlerBase):
             battery_level = round(float(message.payload))
         except (ValueError, OverflowError) as err:
             raise InvalidMessageError(err, message) from err
+        if not 0 <= battery_level <= 100:  # noqa: PLR2004
+            raise InvalidMessageError(
+                ValueError(f"Battery level out of range: {battery_level}"),
+                message,
+            )
         gateway.nodes[message.node_id].battery_level = battery_level
         return message
 
